@@ -99,7 +99,7 @@ def rule_enumeration(ctx, res):
     okg = all(p.ret[0] == 'call' and p.ret[1].endswith('Iterator::filter') and is_param(strip_transparent(p.ret[2][0]), 'iter') and strip_transparent(p.ret[2][1])[0] == 'fn' and strip_transparent(p.ret[2][1])[1] == 'table::is_good_node'
               for p in gs.complete_paths()) and gs.complete_paths()
     res.check(okb and okg, 'FLOW', 'table::bucket_iterator', 'the iterator of a sorted bucket is bucket.iter().filter(is_good_node)')
-    c10.rule_good_filters(ctx, res)
+    c10.rule_good_filters(ctx, lib.Filtered(res, r'^live-node predicate'))
     # constructor: start index from the shared prefix; first iterator for that index; assorted nodes precomputed with the local id
     nb = ctx.body("table::ClosestNodes::<'a>::new")
     res.touch(nb)
@@ -190,6 +190,6 @@ def rule_next_index_in_bounds(ctx, res):
 def run(ctx, res):
     c05.rule_families(ctx, res)
     d = common.Dispatcher(ctx)
-    c05.rule_one_reply(ctx, res, d)      # nodes/nodes6 of find_node and get_peers replies = find_closest_nodes(query target, query want)
+    c05.rule_one_reply(ctx, lib.Filtered(res, r'^nodes-src'), d)      # nodes/nodes6 of find_node and get_peers replies = find_closest_nodes(query target, query want)
     rule_enumeration(ctx, res)
     rule_next_index_in_bounds(ctx, res)
